@@ -20,6 +20,10 @@
 //!   server that has never seen that origin);
 //! * `deleted-live-after-quiescence` — after a final all-pairs mesh in which every supply succeeded, a uuid
 //!   deleted anywhere is live somewhere;
+//! * `late-deletion-stranded-after-trim` — recognised form of the quiescence oracle: a replica still holds the
+//!   deletion but under a cid its own trim has removed from its update vector;
+//! * observation, counted, not a failure (ruling of the lead): `purge_tombstones` answering `ReplInvalidRUVState` while a
+//!   reapable tombstone exists (stale RUV reference after a tombstone merge); the purge is then a no-op;
 //! * `recycled-revived-by-concurrent-class-write` (sub-class of the first, recognised when the uuid was only
 //!   recycled, not yet a tombstone, and another replica wrote `class` later without knowing of the delete).
 //!
@@ -38,6 +42,7 @@ use std::collections::{BTreeMap, BTreeSet};
 
 const WINDOW: u64 = 7 * 86400;
 const NIDS: u8 = 6;
+const CLASS_STRANDED: &str = "late-deletion-stranded-after-trim";
 const CLASS_FORGOT: &str = "D46:lagging-consumer-forgot-origin-served";
 
 #[derive(Clone, Debug, PartialEq, Eq)]
@@ -261,6 +266,8 @@ struct Stats {
     supplies_ok: u64,
     deletions_lost_by_refresh: u64,
     oracle_checks: u64,
+    recreations_skipped: u64,
+    purge_t_failed_invalid_ruv: u64,
 }
 
 struct Track {
@@ -417,7 +424,7 @@ fn repl_step(c: &mut Cluster, drv: &mut Driver, t: &mut Track, from: usize, to: 
     }
     for id in 1..=NIDS {
         let now = &post_c.pool[&id];
-        if now.st == 'L' && t.ever_deleted[to].contains(&id) {
+        if now.st == 'L' && t.ever_deleted[to].contains(&id) && pre_c.pool[&id].st != 'L' {
             let before = &pre_c.pool[&id];
             let class = if before.st == 'R' && now.class_cid != before.class_cid { "recycled-revived-by-concurrent-class-write" } else { "resurrected-on-successful-supply" };
             return Err(fail(
@@ -449,14 +456,34 @@ fn purge_t(c: &mut Cluster, drv: &mut Driver, t: &mut Track, s: usize, step: usi
     let pre = observe(c, s).map_err(|e| fail("impl-vs-oracle", "observe", "readable".into(), e))?;
     note_states(t, s, &pre);
     let ct = c.tick1();
-    let (now, trim): (RCid, RCid) = {
+    let (now, trim, failed): (RCid, RCid, bool) = {
         let mut w = c.rt.block_on(c.qs[s].write(ct)).map_err(|e| fail("impl-vs-oracle", "purge-error", "write".into(), format!("{e:?}")))?;
         let now = hk::write_cid(&w);
         let trim = hk::write_trim_cid(&w);
-        w.purge_tombstones().map_err(|e| fail("impl-vs-oracle", "purge-error", "purge_tombstones succeeds".into(), format!("{e:?}")))?;
-        w.commit().map_err(|e| fail("impl-vs-oracle", "purge-error", "commit".into(), format!("{e:?}")))?;
-        ((now.ts, now.s_uuid), (trim.ts, trim.s_uuid))
+        match w.purge_tombstones() {
+            Ok(_) => {
+                w.commit().map_err(|e| fail("impl-vs-oracle", "purge-error", "commit".into(), format!("{e:?}")))?;
+                ((now.ts, now.s_uuid), (trim.ts, trim.s_uuid), false)
+            }
+            // Known defect, not a violation of this property (ruling of the lead): a tombstone whose `at` was lowered
+            // by a merge keeps a reference under the replica's own later tombstone cid (`update_entry_changestate`
+            // never removes ids), so `reap_tombstones` refuses with ReplInvalidRUVState until that cid is trimmed too.
+            // Tolerated only in that recognised situation: a reapable tombstone exists. The transaction is dropped.
+            Err(OperationError::ReplInvalidRUVState) if pre.tombs.values().any(|at| (at.0, at.1) < (trim.ts, trim.s_uuid)) => {
+                ((now.ts, now.s_uuid), (trim.ts, trim.s_uuid), true)
+            }
+            Err(e) => return Err(fail("impl-vs-oracle", "purge-error", "purge_tombstones succeeds".into(), format!("{e:?}"))),
+        }
     };
+    if failed {
+        st.purge_t_failed_invalid_ruv += 1;
+        let post = observe(c, s).map_err(|e| fail("impl-vs-oracle", "observe", "readable".into(), e))?;
+        if post.tombs != pre.tombs || post.ruv != pre.ruv {
+            return Err(fail("impl-vs-oracle", "purge-error", "a failed purge leaves the replica unchanged".into(), "state changed".into()));
+        }
+        let _ = (now, trim);
+        return Ok(());
+    }
     t.own_sid.insert(s, now.1);
     t.last_purge.insert(s, now.0);
     let post = observe(c, s).map_err(|e| fail("impl-vs-oracle", "observe", "readable".into(), e))?;
@@ -574,6 +601,12 @@ fn run_history(drv: &mut Driver, n: usize, steps: &[Step], st: &mut Stats) -> Ou
     for (k, stp) in steps.iter().enumerate() {
         let step = k + 1;
         let r: Result<(), Fail> = match stp {
+            Step::On(_, Op::Create(id)) if t.deleted_anywhere.contains(id) || t.ever_deleted.iter().any(|d| d.contains(id)) => {
+                // a new incarnation of a uuid that was deleted (possible once its tombstone is reaped) is not the
+                // deleted entry coming back: outside the property, skipped
+                st.recreations_skipped += 1;
+                Ok(())
+            }
             Step::On(s, op) => {
                 let res = std::panic::catch_unwind(std::panic::AssertUnwindSafe(|| exec_op(&mut c, *s, op))).unwrap_or_else(|_| "panic".into());
                 if std::env::var_os("C09_DEBUG").is_some() {
@@ -655,9 +688,23 @@ fn run_history(drv: &mut Driver, n: usize, steps: &[Step], st: &mut Stats) -> Ou
             };
             for id in &t.deleted_anywhere {
                 if o.pool[id].st == 'L' {
+                    // recogniser: some replica still holds the deletion, but under a change cid that its own trim has
+                    // already removed from its update vector: it can never be delivered
+                    let mut stranded = false;
+                    for h in 0..n {
+                        if let Ok(ho) = observe(&mut c, h) {
+                            let p = &ho.pool[id];
+                            if p.st == 'R' || p.st == 'T' {
+                                let cid = if p.st == 'T' { p.at } else { p.class_cid };
+                                if let Some(cid) = cid {
+                                    stranded |= !ho.ruv.contains(&cid);
+                                }
+                            }
+                        }
+                    }
                     out.hard = Some(Fail {
                         kind: "impl-vs-oracle",
-                        class: "deleted-live-after-quiescence".into(),
+                        class: if stranded { CLASS_STRANDED.into() } else { "deleted-live-after-quiescence".into() },
                         step: end,
                         expected: format!("person {id} (deleted on some replica) is live nowhere after a fully successful mesh"),
                         observed: format!("live on replica {s}"),
@@ -743,6 +790,10 @@ fn directed() -> Vec<(&'static str, usize, Vec<&'static str>)> {
         // a consumer out of contact for longer than the window that has trimmed the supplier's origin away: served, the
         // deletion is never delivered
         ("forgetful-consumer", 2, vec!["on 1 create 3", "repl 1 0", "on 0 delete 3", "tick 167", "on 1 desc 3 d2", "tick 72", "repl 1 0", "purget 0", "purget 1", "repl 0 1"]),
+        // two tombstones merged to the earlier one leave a stale RUV reference: purge_tombstones fails
+        ("purge-after-tombstone-merge", 2, vec!["on 1 create 3", "on 1 delete 3", "tick 169", "repl 1 0", "purger 0", "tick 200", "purger 1", "repl 0 1", "purget 1"]),
+        // D53: a deletion that leaves its origin later than the window, accepted by a freshly refreshed replica, stranded by its next trim
+        ("late-deletion-stranded", 3, vec!["on 1 create 1", "on 2 create 2", "repl 1 2", "repl 2 0", "on 2 delete 2", "tick 400", "repl 0 1", "purget 1", "repl 1 0", "repl 2 0", "repl 1 2"]),
         // tombstones made independently on two replicas settle on the earlier one
         ("two-tombstones", 2, vec!["on 0 create 1", "repl 0 1", "on 0 delete 1", "on 1 delete 1", "tick 169", "purger 0", "tick 1", "purger 1", "repl 0 1", "repl 1 0"]),
         // a class write on a replica that does not know of the delete
@@ -791,6 +842,8 @@ fn run_case(drv: &mut Driver, rep: &mut Report, reported: &mut BTreeMap<String, 
         ("successful-supplies-checked", st.oracle_checks),
         ("deletes", st.deletes),
         ("deletions-lost-by-a-protocol-refresh", st.deletions_lost_by_refresh),
+        ("recreations-of-a-deleted-uuid-skipped", st.recreations_skipped),
+        ("observation:purge_tombstones-failed-ReplInvalidRUVState-after-tombstone-merge", st.purge_t_failed_invalid_ruv),
     ] {
         rep.count_n(&format!("{prefix}:{k}"), v);
     }
@@ -825,7 +878,7 @@ fn run_case(drv: &mut Driver, rep: &mut Report, reported: &mut BTreeMap<String, 
         let mut cur: Vec<Step> = steps[..f.step.min(steps.len())].to_vec();
         let (class, kind) = (f.class.clone(), f.kind);
         let (mut expected, mut observed) = (f.expected.clone(), format!("step {}: {}", f.step, f.observed));
-        if shrink && seen < 1 && class != CLASS_FORGOT {
+        if shrink && seen < 1 && class != CLASS_FORGOT && class != CLASS_STRANDED {
             let has = |o: &Outcome| -> Option<(String, String)> {
                 for g in [&o.hard, &o.model_fail].into_iter().flatten() {
                     if g.class == class && g.kind == kind {
